@@ -247,6 +247,13 @@ impl<M: GuestAddressSpace> VringState<M> {
 
     /// Read event from the kick `EventFd`.
     fn read_kick(&self) -> io::Result<bool> {
+        // Leave the event pending while the vring is disabled: it may have been disabled after the
+        // worker was woken up, and a consumed kick would be lost instead of being handled once the
+        // vring is enabled (and its fd registered) again.
+        if !self.enabled {
+            return Ok(false);
+        }
+
         if let Some(kick) = &self.kick {
             kick.consume()?;
         }
